@@ -56,7 +56,7 @@ Definition run_0101 (input impl : sx) : sx :=
   | SL (sv :: pv :: mg :: _), SL [SN se; SN re; SN hung; dr; _; _] =>
     match dec_view sv, dec_view pv, sx_bool mg, sx_list dec_raw dr with
     | Some src, Some prior, Some merge, Some dest =>
-      let unpriv := match input with SL [_; _; _; _; _; _; _; SN u] => negb (N.eqb u 0) | _ => false end in
+      let unpriv := match input with SL (_ :: _ :: _ :: _ :: _ :: _ :: _ :: SN u :: _) => negb (N.eqb u 0) | _ => false end in
       (* the unprivileged receiver rewrites owners to its own id (1000) through the Filter option *)
       let own (e : entry) : entry :=
         if unpriv then
@@ -79,7 +79,12 @@ Definition run_0101 (input impl : sx) : sx :=
       let judged := success && ((faithful && Converge.identity_faithful p s) || merge) in
       let pred := view_x p (receive_t (fun _ => c01_sentinel) (if merge then Merge else Fresh) differ p s) in
       let mdiff := if judged then c01_model_diff unpriv pred (map obs_of_raw dest) else [] in
-      let model := match mdiff with [] => impl | _ => SL (SB [109;111;100;101;108] :: mdiff) end in   (* "model" *)
+      (* the generator's count of identity collisions (cases excluded by hypothesis) is the glue's decision *)
+      let flag_ok := match input with
+                     | SL [_; _; _; _; _; _; _; _; SN f] => Bool.eqb (negb (N.eqb f 0)) (negb (Converge.identity_faithful p s))
+                     | _ => true end in
+      let model := if negb flag_ok then SL [SB [99;111;108;108;105;115;105;111;110;45;102;108;97;103]]   (* "collision-flag" *)
+                   else match mdiff with [] => impl | _ => SL (SB [109;111;100;101;108] :: mdiff) end in   (* "model" *)
       (* known finding: an unprivileged receiver cannot set user.* xattrs on a file it created
          without owner write permission (LSetxattr fails with EACCES, the error is ignored) *)
       let ro_xattr_item (it : sx) : bool :=
